@@ -30,6 +30,7 @@ THEOREMS = [
     "OQuPyVerif.Props.C16.setters_sound",
     "OQuPyVerif.Props.C16.meta_set_after_creation",
     "OQuPyVerif.Props.C16.pttempo_same_metadata",
+    "OQuPyVerif.Props.C16.import_copies_raw",
 ]
 
 
@@ -332,6 +333,8 @@ def pt_specs(tier, rng):
     specs.append(gen_pt_spec(rng, length=3, rank=4, with_tr=True, with_dt=True, named=True))
     specs.append(gen_pt_spec(rng, length=2, rank=4, with_tr=True, with_dt=False, named=False))
     specs.append(gen_pt_spec(rng, length=2, rank=3, dim=3, max_bond=2))
+    # square (4x4), non-involutory transforms: a tensor rotated twice still has the right shape
+    specs.append(gen_pt_spec(rng, length=3, rank=4, with_tr="both", max_bond=2, square=True))
     # exactly one of the two transforms (the constructors allow it)
     specs.append(gen_pt_spec(rng, length=2, rank=4, with_tr="in", max_bond=2))
     specs.append(gen_pt_spec(rng, length=3, rank=4, with_tr="out", max_bond=2))
@@ -456,7 +459,8 @@ def correspondence(res, tier, rng):
             "same assignments on a SimpleProcessTensor")
 
     # (f) every consumer on imported real process tensors (the model's claim: imported = original)
-    cons_cases = [("z", 3)] if tier == "quick" else [("z", 3), ("x", 3), ("z", 6), ("x", 5)]
+    cons_cases = [("z", 3), ("y", 2)] if tier == "quick" else \
+        [("z", 3), ("y", 2), ("x", 3), ("z", 6), ("y", 5)]
     for coupling, steps in cons_cases:
         problems, ran = consumers_roundtrip(coupling, steps)
         res.count("consumers:" + ",".join(ran))
@@ -707,16 +711,33 @@ def judge_roundtrip(spec, kinds=("file", "simple")):
             if imp.description != pt.description:
                 diffs.append("description")
             if len(imp) == len(pt):
+                def differs(fa, fb):
+                    """getter results differ (an exception on the import only counts as different)"""
+                    try:
+                        y = fb()
+                    except Exception as e:
+                        y = type(e).__name__
+                    try:
+                        x = fa()
+                    except Exception as e:
+                        x = type(e).__name__
+                    if isinstance(x, str) and isinstance(y, str):
+                        return x != y
+                    if isinstance(x, str) or isinstance(y, str):
+                        return True
+                    if (x is None) != (y is None):
+                        return True
+                    return x is not None and (x.shape != y.shape or not np.array_equal(x, y))
                 for k in range(len(pt)):
-                    if not np.array_equal(imp.get_mpo_tensor(k), pt.get_mpo_tensor(k)):
+                    if differs(lambda: imp.get_mpo_tensor(k), lambda: pt.get_mpo_tensor(k)):
                         diffs.append("mpo tensor %d" % k)
                         break
                 for k in range(len(pt) + 2):
-                    x, y = imp.get_cap_tensor(k), pt.get_cap_tensor(k)
-                    if (x is None) != (y is None) or (x is not None and not np.array_equal(x, y)):
+                    if differs(lambda: imp.get_cap_tensor(k), lambda: pt.get_cap_tensor(k)):
                         diffs.append("cap tensor %d" % k)
                         break
-                if list(imp.get_bond_dimensions()) != list(pt.get_bond_dimensions()):
+                if differs(lambda: np.array(imp.get_bond_dimensions()),
+                           lambda: np.array(pt.get_bond_dimensions())):
                     diffs.append("bond dimensions")
             for f in diffs:
                 bad.append(("import-%s:%s-differs" % (kind, f.split(" ")[0]),
